@@ -298,6 +298,7 @@ inductive MOp where
 
 structure Mon where
   delay : Nat := 0
+  fbDelay : Nat := 0
   grace : Nat := 0
   failbackEnabled : Bool := true
   now   : Nat := 0
@@ -317,6 +318,9 @@ structure Mon where
   cbActiveDownSince : Option Nat := none   -- the down period as it stood when that execution was entered
   lastExit : Option Nat := none     -- this operation: the last moment at which the state was certainly not in_progress
   lastCbActive : Option Nat := none -- this operation: when callback(active) was last invoked
+  fbSince : Option Nat := none      -- failback_pending next to a healthy partner, with no sign of life of the failback
+                                    -- (callback invoked or returned, role or health change, operator/script action) since
+  lastFbSign : Option Nat := none   -- this operation: the last such sign of life
   slack : Nat := 0                  -- the longest callback duration the script has configured so far
   cbActiveHealthy : Bool := false   -- was the partner reported healthy when the last callback(active) was invoked
   cbStandbyHealthy : Bool := true   -- … when the last callback(standby) was invoked
@@ -379,6 +383,9 @@ def checkEvents (m : Mon) : List ObsEv → Mon × List Verdict
   | [] => (m, [])
   | e :: rest =>
     let (m1, v1) := checkEvent m e
+    let m1 := match e.kind with
+      | .other => m1
+      | _ => { m1 with lastFbSign := some e.t }
     let (m2, v2) := checkEvents m1 rest
     (m2, v1 ++ v2)
 
@@ -390,7 +397,7 @@ def check (m : Mon) (op : MOp) (o : Snap) : Mon × List Verdict :=
   let prevCompleted := m.completed
   let prevRole := m.role
   -- the clock and the health picture as of this operation
-  let m := { m with now := o.t, promos := 0, compl := 0, lastExit := none, lastCbActive := none }
+  let m := { m with now := o.t, promos := 0, compl := 0, lastExit := none, lastCbActive := none, lastFbSign := none }
   let m := match op with
     | .down => setHealth m false o.t
     | .up => setHealth m true o.t
@@ -426,7 +433,18 @@ def check (m : Mon) (op : MOp) (o : Snap) : Mon × List Verdict :=
     | some t => if m.grace + m.slack < m.now - t then
         [("stuck", s!"state in_progress since {t}, still in_progress at {m.now} (grace period {m.grace}, callback up to {m.slack}) with nothing happening")] else []
     | none => [])
-  ({ m with role := o.role, state := o.state, completed := o.completed, ipSince := ipSince,
+  -- stuck in failback_pending: next to a healthy partner the armed failback timer fires within the failback delay
+  -- and the callback is invoked one grace period later (and answers within the scripted duration)
+  let fbSince := if o.state != "failback_pending" || !m.healthy then none else
+    match op, m.fbSince, m.lastFbSign with
+    | _, _, some x => some x
+    | .advance, some t, none => some t
+    | _, _, none => some m.now
+  let vs := vs ++ (match fbSince with
+    | some t => if m.fbDelay + m.grace + m.slack < m.now - t then
+        [("stuck", s!"state failback_pending next to a healthy partner since {t}, still at {m.now} (failback delay {m.fbDelay}, grace period {m.grace}, callback up to {m.slack}) and the failback has not shown a sign of life")] else []
+    | none => [])
+  ({ m with role := o.role, state := o.state, completed := o.completed, ipSince := ipSince, fbSince := fbSince,
             ipDownSince := if o.state != "in_progress" then none else
               match m.ipDownSince with
               | some d => some d
